@@ -489,9 +489,7 @@ impl<T: Read + Seek> ShapeReader<T> {
     pub fn seek(&mut self, index: usize) -> Result<(), Error> {
         if let Some(ref shapes_index) = self.shapes_index {
             match shapes_index.get(index) {
-                Some(shape_idx) => self
-                    .source
-                    .seek(SeekFrom::Start(shape_idx.byte_offset()?)),
+                Some(shape_idx) => self.source.seek(SeekFrom::Start(shape_idx.byte_offset()?)),
                 None => self.source.seek(SeekFrom::End(0)),
             }?;
             Ok(())
